@@ -451,6 +451,20 @@ where
     let shown = format!("{:?}", v);
     let case = json!({"space": "K", "buffered": name, "value": shown});
     let same = |a: &T, b: &T| a == b || format!("{:?}", a) == format!("{:?}", b);
+    // ... also when the carrier overwrites another one in place (clone_from) and is cloned on
+    match vcommon::catch(|| {
+        Any::new(v).map_err(|e| e.to_string()).and_then(|a| {
+            let mut x = Any::new(&[("other", vec![1u8, 2])].into_iter().collect::<std::collections::BTreeMap<_, _>>()).map_err(|e| e.to_string())?;
+            x.clone_from(&a);
+            if x != a || x.clone() != a {
+                return Err("a clone of the carrier differs from it".to_string());
+            }
+            x.deserialize_into::<T>().map_err(|e| e.to_string())
+        })
+    }) {
+        Ok(Ok(back)) if same(&back, v) => {}
+        other => r.violation(format!("C13|K|overwritten-carrier|buffered:{}", name), format!("{} {}: a carrier overwritten in place with this value's carrier gives {:?}", name, shown, other.map(|x| x.map(|b| format!("{:?}", b)))), case.clone()),
+    }
     match vcommon::catch(|| Any::new(v).map_err(|e| e.to_string()).and_then(|a| a.deserialize_into::<T>().map_err(|e| e.to_string()))) {
         Err(p) => r.violation(format!("C13|K|panic|buffered:{}", name), format!("{} {}: Any::new / deserialize_into panicked: {}", name, shown, p), case),
         Ok(Err(e)) => r.violation(format!("C13|K|value-rejected|buffered:{}", name), format!("{} {} does not survive Any: {}", name, shown, e), case),
